@@ -7,7 +7,7 @@ ROOT = os.path.dirname(os.path.dirname(os.path.abspath(__file__)))
 HOOK_COMMITS = ["7a8ba4f"]
 FIX_COMMITS = ["4500ab7", "5737839", "2d5e69c", "bf43ee9", "0b45cfb", "823a22a", "a0bae4e", "a7c4305", "679711e", "6687037", "9f0056a", "8ebb5ae", "77c6db8", "a9e432f", "5be6b47",
                "9204408", "62101af", "3d46141", "2ff2c50", "e379910", "1f6170d", "08f4d2e", "e15ae94", "3b1bac7", "6cf510e",
-               "f957fe3", "9839c25", "f3ebd21", "97472b2", "703b1b6", "8dc3815", "195ebf5", "3bfa7c9", "805185c", "13be2b2"]
+               "f957fe3", "9839c25", "f3ebd21", "97472b2", "703b1b6", "8dc3815", "195ebf5", "3bfa7c9", "805185c", "13be2b2", "b240896"]
 
 CHECKS = {
     "C01": dict(
